@@ -180,3 +180,83 @@ Theorem C16_no_answer :
   res = Err RIo \/ res = Err (RFrame InvalidFrame).
 Proof. exact SerialP.C16_no_answer. Qed.
 Print Assumptions C16_no_answer.
+
+(* ---------- a whole conversation ---------- *)
+(* [serial_run ms p]: one exchange after another on the same port, each starting where the last left the streams. *)
+Check eq_refl : serial_run =
+  fix serial_run (ms : list msg) (p : port) : option (list (result rerr (option msg)) * port) :=
+    match ms with
+    | [] => Some ([], p)
+    | m :: ms' =>
+        match serial_process m p with
+        | None => None
+        | Some (res, p', _) =>
+            match serial_run ms' p' with
+            | None => None
+            | Some (rs, p'') => Some (res :: rs, p'')
+            end
+        end
+    end.
+
+(* What a cooperative far side puts on the line: for each message, a well-formed reply frame exactly when the message
+   expects a reply. *)
+Check eq_refl : conv_ok = fun c : msg * option frame =>
+  match snd c with
+  | Some f => response_expected (fst c) = true /\ wf_frame f
+  | None => response_expected (fst c) = false
+  end.
+Check eq_refl : conv_tape = fun conv : list (msg * option frame) =>
+  concat (map (fun c => match snd c with Some f => encode_nl f | None => [] end) conv).
+Check eq_refl : conv_sent = fun conv : list (msg * option frame) =>
+  concat (map (fun c => encode_nl (frame_of_msg (fst c))) conv).
+Check eq_refl : conv_results = fun conv : list (msg * option frame) =>
+  map (fun c => Ok (option_map msg_of_frame (snd c))) conv.
+
+(* On a healthy port, with the replies waiting back to back on the line (any fragmentation, any interruptions), a
+   conversation of any length gives every message its own reply and nobody else's, writes exactly the messages'
+   frames in order and leaves exactly the bytes after the last reply unread. *)
+Theorem C16_conversation :
+  forall conv trailing out ws rs,
+  (forall ev, In ev ws -> ev <> WFail /\ ev <> WZero) -> ~ In RFail rs ->
+  Forall conv_ok conv ->
+  exists p',
+    serial_run (map fst conv)
+      {| pt_in := {| r_content := conv_tape conv ++ trailing; r_sched := rs |};
+         pt_out := {| w_out := out; w_sched := ws |} |}
+    = Some (conv_results conv, p')
+    /\ w_out (pt_out p') = out ++ conv_sent conv
+    /\ r_content (pt_in p') = trailing.
+Proof. exact SerialP.serial_conversation. Qed.
+Print Assumptions C16_conversation.
+
+(* Exchanges compose: the second half of a conversation sees the port exactly as the first half left it. *)
+Theorem C16_run_app :
+  forall ms1 ms2 p,
+  serial_run (ms1 ++ ms2) p
+  = match serial_run ms1 p with
+    | None => None
+    | Some (rs1, p1) =>
+        match serial_run ms2 p1 with
+        | None => None
+        | Some (rs2, p2) => Some (rs1 ++ rs2, p2)
+        end
+    end.
+Proof. exact SerialP.serial_run_app. Qed.
+Print Assumptions C16_run_app.
+
+Example C16_ex_conversation :
+  Forall conv_ok [(Hello 3, Some (frame_of_msg (ReportState 3 Unconfigured)));
+                  (SendData 0 [1; 2], None);
+                  (QueryState 3, Some (frame_of_msg (ReportState 3 ConfigReceived)))]
+  /\ serial_run [Hello 3; SendData 0 [1; 2]; QueryState 3]
+       {| pt_in := {| r_content := encode_nl (frame_of_msg (ReportState 3 Unconfigured))
+                                   ++ encode_nl (frame_of_msg (ReportState 3 ConfigReceived)) ++ [58];
+                      r_sched := [RData 0; RIntr] |};
+          pt_out := {| w_out := []; w_sched := [WAccept 0; WIntr] |} |}
+     = Some ([Ok (Some (ReportState 3 Unconfigured)); Ok None; Ok (Some (ReportState 3 ConfigReceived))],
+             {| pt_in := {| r_content := [58]; r_sched := [] |};
+                pt_out := {| w_out := encode_nl (frame_of_msg (Hello 3))
+                                      ++ encode_nl (frame_of_msg (SendData 0 [1; 2]))
+                                      ++ encode_nl (frame_of_msg (QueryState 3));
+                             w_sched := [] |} |}).
+Proof. split; [repeat constructor|vm_compute; reflexivity]. Qed.
